@@ -14,6 +14,15 @@ import sys
 
 ROOT = os.path.dirname(os.path.dirname(os.path.abspath(__file__)))
 HINTS = {
+    8: "TWO COOPERATING SITES that each look fine alone (a helper changed in one place and a caller relying on its old "
+       "contract in another; a value cached at one site and invalidated at another); state carried ACROSS timesteps or "
+       "across calls (a memo, a counter, a 'dirty' flag, a lazily built index) that goes stale only after a specific "
+       "sequence of three or more operations; a defect that depends on a SIZE threshold (only with four or more systems / "
+       "agents / parameters / tags / cells per axis, or a radius of three or more, or a collection longer than some small "
+       "constant); a defect that depends on the TYPE of an otherwise valid argument (a tuple where a list is usual, a "
+       "range or generator, a dict view, a str subclass, a bool, a Fraction or Decimal, a numpy integer); a defect in how "
+       "an operation behaves on an object that was REMOVED and then ADDED again, or moved between two owners; a defect in "
+       "the keyword-only / default-argument path that the tests never take.",
     7: "a defect that needs RE-ENTRANCY: a user callback (system, cell generator, score function, decode hook, per-agent "
        "collector function, composite function) that itself calls back into the library (adds/removes agents or systems, "
        "queries neighbours, builds another parameter list, decodes, adds a tag) while the library is in the middle of the "
@@ -65,9 +74,12 @@ Aim for changes that are harder to notice than those. Ideas that have NOT been u
 Technical note: several engineers work in sibling worktrees of the same git repository. NEVER use `git stash` (the stash is shared between worktrees). To test your demo on unchanged code use: `git diff > @DIR@/@ID@/SEED/tmp.diff; git checkout -- ECAgent; <run>; git apply @DIR@/@ID@/SEED/tmp.diff`.
 '''.replace('@RND@', str(rnd)).replace('@HINT@', HINTS.get(rnd, ''))
     os.makedirs(rdir, exist_ok=True)
+    only = set(os.environ.get("SEED_ONLY", "").split()) or None
     for line in open(os.path.join(ROOT, "properties.jsonl")):
         p = json.loads(line)
         pid = p["id"]
+        if only and pid not in only:
+            continue
         wt = os.path.join(rdir, pid)
         subprocess.run(["git", "-C", "/repo", "worktree", "add", "--detach", wt, "HEAD"], capture_output=True)
         open(os.path.join(wt, "PROPERTY.txt"), "w").write(
@@ -76,6 +88,8 @@ Technical note: several engineers work in sibling worktrees of the same git repo
         t = tmpl.replace("/tmp/seed/@ID@", "@DIR@/@ID@")
         if rnd > 1:
             t = t.replace("Your task: produce TWO", extra.replace('@IDEAS@', ideas) + "\nYour task: produce TWO")
+        if os.environ.get("SEED_ONE"):
+            t += "\n\nFOR THIS ROUND: produce only ONE change (A) instead of two - ignore every mention of B above. Spend at most about 15 minutes.\n"
         t = t.replace("@DIR@", rdir).replace("@ID@", pid)
         open(os.path.join(wt, "PROMPT.txt"), "w").write(t)
     print(len(os.listdir(rdir)), "worktrees prepared under", rdir)
